@@ -160,6 +160,17 @@ def main():
             if pid in DRESSED:
                 text += (" The oracle families are also converted in other dresses (CRLF, trailing blanks, a legend below, another "
                          "scale); the trace specification checks the dress and evaluates the same oracle (DocTrace!Dressed).")
+            if pid == "C14":
+                text += (" Every neighbourhood (up to two neighbours) of a bullet or arrowhead character goes through the glyph model; where "
+                         "the specification attaches the bullet or ends a line in an arrowhead, the trace specification requires the marker "
+                         "line / polygon in the real document (C14m), and the marker definitions the classes refer to are checked (BulletMarkersOK).")
+            if pid == "C19":
+                text += (" Faults on the model: missing file, input that is not text, unparsable number, unwritable output; options in every "
+                         "spelling and order; exit status compared as zero / non-zero.")
+            if pid == "C20":
+                text += (" The model lets clients leave at any stage (orphan conversions give their thread back: NoThreadLost); the driver has "
+                         "keep-alive connections, look-alike bodies in sequence, uploads that stall, clients that leave before their answer and "
+                         "connections that are reset.")
             if pid in BUFFERED:
                 text += (" Histories of one kept buffer object (render, write cells, render again at other scales) are validated "
                          "against Buffer.tla by BufferTrace.tla.")
